@@ -72,6 +72,9 @@ type c12Rec struct {
 	vRecord
 	RawOut  []c12Raw    `json:"rawout"`
 	Streams []c12Stream `json:"streams"`
+	// HTTP lookups: [kind, status]; kind 1 = GET .../messages for an id NEWER than anything applied (a lagging
+	// node must answer "not yet seen", never 404 "no such session"), kind 2 = for an ended session
+	HTTPLk [][]int64 `json:"httplk"`
 }
 
 type c12Sess struct {
@@ -190,7 +193,7 @@ func c12History(c *rigChild, st rigStep, r *rigResult) {
 	}
 
 	pre := ircServer.VerifProject()
-	enc.Encode(&c12Rec{vRecord: vRecord{K: "reset", H: p.H, Post: pre, Out: []vReply{}, Lookup: [][]interface{}{}}, RawOut: []c12Raw{}, Streams: []c12Stream{}})
+	enc.Encode(&c12Rec{vRecord: vRecord{K: "reset", H: p.H, Post: pre, Out: []vReply{}, Lookup: [][]interface{}{}}, RawOut: []c12Raw{}, Streams: []c12Stream{}, HTTPLk: [][]int64{}})
 	nrec, refused, resumed := 0, 0, 0
 	kinds := map[string]int{}
 	for step := 1; step <= p.Len; step++ {
@@ -274,7 +277,7 @@ func c12History(c *rigChild, st rigStep, r *rigResult) {
 		var om []outputstream.Message = msgs
 		post := ircServer.VerifProject()
 		rec := &c12Rec{vRecord: vRecord{K: "step", H: p.H, I: step, E: ne, Post: post, Out: vProjectReplies(om),
-			Lines: vCheckLines(om), Rids: vCheckRids(om, ne.Id), Lookup: [][]interface{}{}}, RawOut: []c12Raw{}, Streams: []c12Stream{}}
+			Lines: vCheckLines(om), Rids: vCheckRids(om, ne.Id), Lookup: [][]interface{}{}}, RawOut: []c12Raw{}, Streams: []c12Stream{}, HTTPLk: [][]int64{}}
 		for id := int64(0); id <= int64(after)+2; id++ {
 			rec.Lookup = append(rec.Lookup, []interface{}{id, ircServer.VerifLookup(uint64(id))})
 		}
@@ -324,8 +327,25 @@ func c12History(c *rigChild, st rigStep, r *rigResult) {
 		}
 	}
 
+	lookups := [][]int64{{0, 0}}
+	lookup := func(kind int64, alias, sid string) {
+		rr := &rigResult{}
+		c.step(rigStep{Op: "get", Session: alias, Sid: sid, Ms: 40}, rr)
+		lookups = append(lookups, []int64{kind, int64(rr.Status)})
+	}
+	for _, id := range order {
+		s := sessions[id]
+		if exists(pre, id) {
+			if len(lookups) < 4 {
+				lookup(1, s.alias, "notyet")
+			}
+		} else if len(lookups) < 8 {
+			lookup(2, s.alias, "")
+		}
+	}
+
 	// final read of every stream
-	final := &c12Rec{vRecord: vRecord{K: "streams", H: p.H, I: p.Len + 1, Post: pre, Out: []vReply{}, Lookup: [][]interface{}{}}, RawOut: []c12Raw{}, Streams: []c12Stream{}}
+	final := &c12Rec{vRecord: vRecord{K: "streams", H: p.H, I: p.Len + 1, Post: pre, Out: []vReply{}, Lookup: [][]interface{}{}}, RawOut: []c12Raw{}, Streams: []c12Stream{}, HTTPLk: [][]int64{}}
 	for _, id := range order {
 		s := sessions[id]
 		live := exists(pre, id)
@@ -366,6 +386,7 @@ func c12History(c *rigChild, st rigStep, r *rigResult) {
 		}
 		final.Streams = append(final.Streams, st)
 	}
+	final.HTTPLk = lookups
 	enc.Encode(final)
 	r.Status = 200
 	r.Extra = map[string]interface{}{"records": nrec, "refused": refused, "resumed": resumed, "sessions": len(order), "kinds": kinds}
